@@ -250,11 +250,15 @@ func sessionLookups(c *vf.Ctx) {
 	doms := []domSpec{
 		{[]string{"corp", "example", "com"}, []uint32{21, 1004336348, 1177238915, 682003330}},
 		{[]string{"lab"}, []uint32{21, 4294967295, 2147483648, 0}},
+		// binary SIDs that begin or end in bytes a TEXT routine would treat as white space or a terminator
+		{[]string{"ws", "test"}, []uint32{21, 0x0D0A0920, 0x20202020, 0x20C4A1B7}},
+		{[]string{"nl"}, []uint32{21, 7, 0x0A000000}},
+		{[]string{"tab", "x"}, []uint32{21, 0x09000009, 0x0900000D}},
 	}
 	if c.Thorough() {
 		doms = append(doms, domSpec{[]string{"a", "b", "c", "d", "e"}, []uint32{21, 1, 2, 3}}, domSpec{[]string{"x-1", "y"}, []uint32{21, 10, 4294967294, 65536}})
 	}
-	domainRIDs := []uint32{500, 501, 512, 513, 1000, 1105, 2147483648, 4294967295}
+	domainRIDs := []uint32{500, 501, 512, 513, 1000, 1105, 2147483648, 4294967295, 0x20000001, 0x0A00000A, 0x0D0A0920, 0xA0000085}
 	// variants of what the directory holds
 	variants := []string{"full", "no-builtin-container", "no-accounts", "domain-object-with-a-builtin-rid", "child-domain"}
 	nLookups := 0
